@@ -29,7 +29,9 @@ func (s *seqConc) syncOp(fr *frame, op string, obj *value, args []value) value {
 	switch op {
 	case "Mutex.Lock", "RWMutex.Lock":
 		if st.locked[obj] || st.readers[obj] > 0 {
-			deadlock("Lock of a held mutex (sequential mode)")
+			// goroutines run to completion where they are started, so whoever
+			// holds the mutex now will never release it: the caller hangs
+			panic(targetPanic{"all goroutines are asleep - deadlock! (Lock of a mutex that is held and never released)"})
 		}
 		st.locked[obj] = true
 	case "Mutex.TryLock":
